@@ -481,3 +481,284 @@ Proof.
   - rewrite Hr. destruct (items u) eqn:I; cbn [running hd_error]; [exact Hr | reflexivity].
   - rewrite E in Hs. discriminate.
 Qed.
+
+(* ================= observers overlapping operations of another goroutine ================= *)
+
+Lemma in_all_ins_cons t l : In (t :: l) (all_ins t l).
+Proof. destruct l; left; reflexivity. Qed.
+
+Lemma in_all_ins_end t l : In (l ++ [t]) (all_ins t l).
+Proof.
+  induction l as [|x l IH]; [left; reflexivity|].
+  cbn [all_ins app]. right. apply in_map. exact IH.
+Qed.
+
+Lemma in_all_ins_add_after id t l : In (add_after id t l) (all_ins t l).
+Proof.
+  induction l as [|x l IH]; [left; reflexivity|].
+  cbn [all_ins add_after]. destruct (N.eqb (tid x) id).
+  - right. apply in_map. apply in_all_ins_cons.
+  - right. apply in_map. exact IH.
+Qed.
+
+Lemma in_all_ins_add_before id t l : In (add_before id t l) (all_ins t l).
+Proof.
+  induction l as [|x l IH]; [left; reflexivity|].
+  cbn [all_ins add_before]. destruct (N.eqb (tid x) id).
+  - left. reflexivity.
+  - right. apply in_map. exact IH.
+Qed.
+
+Lemma remove_in_dels id l : snd (remove id l) = l \/ In (snd (remove id l)) (all_dels l).
+Proof.
+  induction l as [|x l IH]; [left; reflexivity|].
+  cbn [remove all_dels]. destruct (N.eqb (tid x) id).
+  - right. left. reflexivity.
+  - destruct (remove id l) as [o r']. cbn [snd] in *. destruct IH as [IH|IH].
+    + left. now rewrite IH.
+    + right. right. apply in_map. exact IH.
+Qed.
+
+Lemma removelast_in_dels (l : list task) : l <> [] -> In (removelast l) (all_dels l).
+Proof.
+  induction l as [|x l IH]; intros Hne; [contradiction|].
+  destruct l as [|y l].
+  - left. reflexivity.
+  - change (removelast (x :: y :: l)) with (x :: removelast (y :: l)).
+    cbn [all_dels]. right. apply (in_map (cons x)). apply IH. discriminate.
+Qed.
+
+Lemma trigger_mid s o : chain_mid_ok o = true -> trigger_step s o = false.
+Proof. destruct o; intros H; try discriminate H; reflexivity. Qed.
+
+Lemma spec_ok_mid_running l r1 r2 o m ret :
+  chain_mid_ok o = true -> spec_ok l r1 o m ret = spec_ok l r2 o m ret.
+Proof. destruct o; intros H; try discriminate H; reflexivity. Qed.
+
+Lemma step_raw_mid_running s o : chain_mid_ok o = true ->
+  running (fst (step_raw s o)) = running s /\ started (fst (step_raw s o)) = started s.
+Proof.
+  destruct s as [l st rn]. destruct o; intros H; try discriminate H;
+    cbn [step_raw step_simple fst items running started]; try (split; reflexivity).
+  - destruct (remove id l); split; reflexivity.
+  - destruct l; split; reflexivity.
+  - destruct l; split; reflexivity.
+Qed.
+
+Lemma auto_pick_running_some s p : running s = Some p -> running (auto_pick s) = Some p.
+Proof.
+  intros H. unfold auto_pick. destruct (started s); [|exact H].
+  rewrite H. exact H.
+Qed.
+
+Lemma mid_running_some s o p : chain_mid_ok o = true -> running s = Some p ->
+  running (fst (step s o)) = Some p.
+Proof.
+  intros Hm Hr. rewrite step_fst. apply auto_pick_running_some.
+  destruct (step_raw_mid_running s o Hm) as [E _]. now rewrite E.
+Qed.
+
+Lemma mid_universe s o : chain_mid_ok o = true ->
+  In (items (fst (step_raw s o))) (universe (items s) o).
+Proof.
+  destruct s as [l st rn]. destruct o; intros H; try discriminate H;
+    cbn [step_raw step_simple fst items running started universe].
+  - apply in_all_ins_cons.
+  - apply in_all_ins_end.
+  - apply in_all_ins_add_after.
+  - apply in_all_ins_add_before.
+  - pose proof (remove_in_dels id l) as HR. destruct (remove id l) as [o r'].
+    cbn [snd fst items] in *. destruct HR as [HR|HR]; [left; now rewrite HR | right; exact HR].
+  - destruct l as [|x r]; cbn [fst items]; [left; reflexivity | right; left; reflexivity].
+  - destruct l as [|x r]; cbn [fst items]; [left; reflexivity|].
+    right. apply removelast_in_dels. discriminate.
+  - left. reflexivity.
+Qed.
+
+Lemma step_items s o : items (fst (step s o)) = items (fst (step_raw s o)).
+Proof. rewrite step_fst. apply auto_pick_items. Qed.
+
+Lemma removelast_cons2 (a b : op) l : removelast (a :: b :: l) = a :: removelast (b :: l).
+Proof. reflexivity. Qed.
+
+(* the model's Iterate-overlapping-a-chain satisfies the chain clause *)
+Lemma chain_model_ok : forall cs s rn w seen,
+  seen || tasks_eqb w (items s) = true ->
+  T_from s cs = false ->
+  forallb chain_mid_ok (removelast cs) = true ->
+  (forallb chain_mid_ok cs = true \/ (rn = running s /\ (length cs = 1 \/ exists p, rn = Some p))) ->
+  chain_ok rn w seen (items s) cs (snd (chain_run s cs)) (items (fst (chain_run s cs))) = true.
+Proof.
+  induction cs as [|o cs IH]; intros s rn w seen Hseen HT Hmid Hdom.
+  - cbn [chain_run chain_ok fst snd]. now rewrite tasks_eqb_refl, Hseen.
+  - cbn [chain_run]. destruct (step s o) as [s' ret] eqn:Es.
+    destruct (chain_run s' cs) as [s'' rs] eqn:Ec. cbn [fst snd chain_ok].
+    rewrite Hseen.
+    assert (E1 : s' = fst (step s o)) by now rewrite Es.
+    assert (E2 : ret = snd (step s o)) by now rewrite Es.
+    cbn [T_from] in HT. apply orb_false_iff in HT as [HT1 HT2].
+    assert (Hspec : spec_ok (items s) rn o (items s') ret = true).
+    { subst s' ret. rewrite step_items, step_snd.
+      destruct Hdom as [Hall | [Hrn _]].
+      - cbn [forallb] in Hall. apply andb_true_iff in Hall as [Ho _].
+        rewrite (spec_ok_mid_running _ rn (running s) _ _ _ Ho). now apply step_raw_spec.
+      - subst rn. now apply step_raw_spec. }
+    destruct cs as [|o2 cs2].
+    + cbn [chain_run] in Ec. inversion Ec; subst s'' rs.
+      rewrite Hspec. reflexivity.
+    + rewrite removelast_cons2 in Hmid. cbn [forallb] in Hmid.
+      apply andb_true_iff in Hmid as [Ho Hmid].
+      apply existsb_exists. exists (items s'). split.
+      { subst s'. rewrite step_items. now apply mid_universe. }
+      rewrite Hspec. cbn [andb].
+      replace rs with (snd (chain_run s' (o2 :: cs2))) by now rewrite Ec.
+      replace s'' with (fst (chain_run s' (o2 :: cs2))) by now rewrite Ec.
+      apply IH.
+      * reflexivity.
+      * subst s'. exact HT2.
+      * exact Hmid.
+      * destruct Hdom as [Hall | [Hrn [Hlen | [p Hp]]]].
+        -- left. cbn [forallb] in Hall. now apply andb_true_iff in Hall as [_ Hall].
+        -- cbn [length] in Hlen. discriminate Hlen.
+        -- right. split; [|right; now exists p].
+           subst s'. symmetry. rewrite Hp. apply mid_running_some; [exact Ho | now rewrite <- Hrn, Hp].
+Qed.
+
+Lemma chain_wf_cases rn cs : chain_wf rn cs = true ->
+  forallb chain_mid_ok (removelast cs) = true /\
+  (forallb chain_mid_ok cs = true \/ (length cs = 1 \/ exists p, rn = Some p)).
+Proof.
+  unfold chain_wf. intros H. apply andb_true_iff in H as [H1 H2]. split; [exact H1|].
+  destruct cs as [|a cs'] using rev_ind; [left; reflexivity|].
+  rewrite rev_unit in H2. rewrite removelast_last in H1.
+  apply orb_true_iff in H2 as [H2|H2].
+  - left. rewrite forallb_app, H1. cbn [forallb]. now rewrite H2.
+  - right. apply andb_true_iff in H2 as [_ H2]. apply orb_true_iff in H2 as [H2|H2].
+    + left. destruct (rev cs') as [|z zs] eqn:Er; [|discriminate H2].
+      apply (f_equal (@rev _)) in Er. rewrite rev_involutive in Er. subst cs'. reflexivity.
+    + right. destruct rn as [p|]; [now exists p | discriminate H2].
+Qed.
+
+Lemma xrun_from_XP : forall xs s,
+  XT_from s xs = false -> XWF_from s xs = true ->
+  XP_from (items s) (running s) xs (xrun_from s xs) = true.
+Proof.
+  induction xs as [|x xs IH]; intros s HT HW; [reflexivity|].
+  cbn [XT_from] in HT. apply orb_false_iff in HT as [HT1 HT2].
+  cbn [XWF_from] in HW. apply andb_true_iff in HW as [HW1 HW2].
+  unfold xstate_after in *.
+  cbn [xrun_from]. destruct (xstep s x) as [s' ob] eqn:Ex. cbn [fst] in *.
+  destruct x as [o | pos cs]; cbn [xstep] in Ex.
+  - destruct (step s o) as [s1 r] eqn:E. inversion Ex; subst s1 ob. clear Ex.
+    cbn [XP_from x_obs]. rewrite observe_wf.
+    assert (E1 : s' = fst (step s o)) by (now rewrite E).
+    assert (E2 : r = snd (step s o)) by (now rewrite E).
+    cbn [xspec_ok x_obs x_walk x_rets o_ret o_running observe].
+    replace (items s') with (items (fst (step_raw s o))) at 1 by (subst s'; now rewrite step_items).
+    subst r. rewrite step_snd, step_raw_spec by assumption. cbn [andb].
+    apply IH; assumption.
+  - destruct (chain_run s cs) as [s1 rs] eqn:E. inversion Ex; subst s1 ob. clear Ex.
+    cbn [XP_from x_obs]. rewrite observe_wf.
+    cbn [xspec_ok x_obs x_walk x_rets o_ret o_running observe].
+    rewrite all_some_map, HW1. cbn [andb otask_eqb option_eqb].
+    destruct (chain_wf_cases _ _ HW1) as [Hmid Hdom].
+    replace rs with (snd (chain_run s cs)) by now rewrite E.
+    replace (items s') with (items (fst (chain_run s cs))) at 1 by now rewrite E.
+    rewrite chain_model_ok.
+    + cbn [andb]. apply IH; assumption.
+    + cbn [orb]. apply tasks_eqb_refl.
+    + exact HT1.
+    + exact Hmid.
+    + destruct Hdom as [Ha|Hb]; [left; exact Ha | right; split; [reflexivity | exact Hb]].
+Qed.
+
+Theorem observers_refine_list_partial xs :
+  XT xs = false -> XWF xs = true -> XP xs (xrun xs) = true.
+Proof. intros H1 H2. apply (xrun_from_XP xs init H1 H2). Qed.
+
+(* what the clause admits: ONE overlapping operation - the list before or the list after *)
+Theorem walk_one_op rn w l o r l' :
+  chain_ok rn w false l [o] [r] l' = true <->
+  spec_ok l rn o l' r = true /\ (w = l \/ w = l').
+Proof.
+  cbn [chain_ok orb]. rewrite andb_true_r, andb_true_iff, orb_true_iff, !tasks_eqb_eq. reflexivity.
+Qed.
+
+(* k overlapping operations: one of the k+1 lists of a chain of ordinary-list steps from the
+   list before to the list after *)
+Fixpoint chain_rel (rn : option task) (l : list task) (cs : list op) (rs : list (option task))
+         (ms : list (list task)) (l' : list task) : Prop :=
+  match cs, rs, ms with
+  | [], [], [] => l = l'
+  | o :: cs', r :: rs', m :: ms' => spec_ok l rn o m r = true /\ chain_rel rn m cs' rs' ms' l'
+  | _, _, _ => False
+  end.
+
+Theorem walk_k_ops : forall cs rn w seen l rs l',
+  chain_ok rn w seen l cs rs l' = true ->
+  exists ms, chain_rel rn l cs rs ms l' /\ length ms = length cs /\ (seen = true \/ In w (l :: ms)).
+Proof.
+  induction cs as [|o cs IH]; intros rn w seen l rs l' H.
+  - destruct rs; [|discriminate H]. cbn [chain_ok] in H.
+    apply andb_true_iff in H as [H1 H2]. apply tasks_eqb_eq in H1.
+    exists []. split; [exact H1|]. split; [reflexivity|].
+    apply orb_true_iff in H2 as [H2|H2]; [left; exact H2 | right; left; symmetry; now apply tasks_eqb_eq].
+  - destruct rs as [|r rs]; [discriminate H|]. cbn [chain_ok] in H.
+    destruct cs as [|o2 cs2].
+    + apply andb_true_iff in H as [H H3]. apply andb_true_iff in H as [H1 H2].
+      destruct rs; [|discriminate H3].
+      exists [l']. split; [split; [exact H1 | reflexivity]|]. split; [reflexivity|].
+      apply orb_true_iff in H2 as [H2|H2].
+      * apply orb_true_iff in H2 as [H2|H2]; [left; exact H2 | right; left; symmetry; now apply tasks_eqb_eq].
+      * right. right. left. symmetry. now apply tasks_eqb_eq.
+    + apply existsb_exists in H as [m [_ H]]. apply andb_true_iff in H as [H1 H2].
+      apply IH in H2 as [ms [R [L S]]].
+      exists (m :: ms). split; [split; assumption|]. split; [cbn [length]; now rewrite L|].
+      destruct S as [S|S].
+      * apply orb_true_iff in S as [S|S]; [left; exact S | right; left; symmetry; now apply tasks_eqb_eq].
+      * right. right. exact S.
+Qed.
+
+Theorem walk_k_ops_unseen : forall cs rn w l rs l',
+  chain_ok rn w false l cs rs l' = true ->
+  exists ms, chain_rel rn l cs rs ms l' /\ length ms = length cs /\ In w (l :: ms).
+Proof.
+  intros cs rn w l rs l' H. destruct (walk_k_ops cs rn w false l rs l' H) as [ms [R [L [S|S]]]];
+    [discriminate S | exists ms; repeat split; assumption].
+Qed.
+
+(* the model's observer is atomic: wherever the callback is held up, the walk is the list as it
+   was when the Iterate began, and the state afterwards is that of the operations run in order *)
+Theorem iterate_atomic s pos cs :
+  x_walk (snd (xstep s (IterateDuring pos cs))) = map Some (items s)
+  /\ fst (xstep s (IterateDuring pos cs)) = exec s cs.
+Proof.
+  cbn [xstep]. destruct (chain_run s cs) as [s' rs] eqn:E. cbn [fst snd x_walk]. split; [reflexivity|].
+  replace s' with (fst (chain_run s cs)) by now rewrite E. clear E.
+  revert s. induction cs as [|o cs IH]; intros s; [reflexivity|].
+  cbn [chain_run]. unfold exec. cbn [fold_left]. fold (exec (fst (step s o)) cs).
+  destruct (step s o) as [s1 r1]. cbn [fst]. rewrite <- IH.
+  destruct (chain_run s1 cs). reflexivity.
+Qed.
+
+(* the sequences without observers: XP and xrun are P and run *)
+Definition plain_obs (o : obs) : xobs := mkXObs o [] [].
+
+Lemma xrun_from_plain ops : forall s, xrun_from s (map Plain ops) = map plain_obs (run_from s ops).
+Proof.
+  induction ops as [|o ops IH]; intros s; [reflexivity|].
+  cbn [map xrun_from xstep run_from]. destruct (step s o) as [s' r]. cbn [map]. now rewrite IH.
+Qed.
+
+Lemma XP_from_plain ops : forall l rn os,
+  XP_from l rn (map Plain ops) (map plain_obs os) = P_from l rn ops os.
+Proof.
+  induction ops as [|o ops IH]; intros l rn os; destruct os as [|ob os]; try reflexivity.
+  cbn [map XP_from P_from plain_obs x_obs]. destruct (obs_wellformed ob); [|reflexivity].
+  cbn [xspec_ok x_obs x_walk x_rets]. rewrite andb_true_r. now rewrite IH.
+Qed.
+
+Theorem observers_conservative ops :
+  xrun (map Plain ops) = map plain_obs (run ops)
+  /\ XP (map Plain ops) (map plain_obs (run ops)) = P ops (run ops).
+Proof. split; [apply xrun_from_plain | apply XP_from_plain]. Qed.
